@@ -55,3 +55,34 @@ PROPERTIES["C05"] = {
                  ["VerifC05Rename", "VerifC05Prefix", "VerifC05Duplicate", "VerifC05Unspec", "VerifC05ReplaceReference", "VerifC05AllowedObjects"],
                  "internal/ast/compiler", needs_leaf=True)],
 }
+
+
+# ---------------------------------------------------------------- C18
+
+def _c18_prepare(tmp, tier):
+    import subprocess
+    drv = _drv
+    gen = os.path.join(tmp, "zz_verif_c18_gen.go")
+    lst = os.path.join(tmp, "c18_entries.txt")
+    subprocess.run([os.path.join(drv.BUILD, "symgo"), "-dir", drv.REPO, "-gen-deepcopy", gen, "-gen-list", lst,
+                    "-pkgs", "./internal/ast,./internal/ast/compiler,./internal/orderedmap,./internal/veneers/...,./internal/languages,./internal/codegen"],
+                   check=True, env=drv.ENV)
+    return {"gen": gen, "entries": [l.strip() for l in open(lst) if l.strip()]}
+
+def _c18_runs(ctx):
+    return [Run("deepcopy", ["./internal/zzverif/hast"],
+                _h(("internal/zzverif/hast/zz_verif_c18.go", "harness/hast/zz_verif_c18.go"),
+                   ("internal/zzverif/hast/zz_verif_c18_gen.go", ctx["gen"])),
+                ctx["entries"], "internal/zzverif/hast", test_pkg_name="hast")]
+
+PROPERTIES["C18"] = {
+    "level_text": "Bounded symbolic execution + SMT. For EVERY method named DeepCopy that go/types finds in cog's IR packages on this run, an arbitrary value "
+                  "of the receiver type is built from its declared fields (every leaf a solver variable, every pointer/slice/map populated down to the depth bound; "
+                  "nil-ness and lengths forked at the top level), the real DeepCopy is executed with the receiver frozen, and the solver decides (i) field-wise "
+                  "equality of copy and original in every declared field (dynamic types included) and the engine decides (ii) that copy and original share no mutable heap object.",
+    "level_note": "Bounds: 4 (quick) / 5 (thorough) indirections, slices of length 2, maps of one entry, `any` over {string,int64,bool,[]any,map[string]any}. "
+                  "The field list is read from go/types at run time. nil and empty collections are identified.",
+    "bounds": {"depth": "4/5 indirections", "collections": "slice length 2 (0..2 forked at top level), map 1 entry", "strings": "{a,b,c}", "ints": "[0,3]"},
+    "prepare": _c18_prepare,
+    "runs": _c18_runs,
+}
